@@ -257,6 +257,25 @@ def dumpSymSec (o : Obj) (i : Nat) : M Obj :=
           | .ok _ => pure o1
     else pure o
 
+/-- `for x in l: f x` -/
+def allM {α : Type} (l : List α) (f : α → M Unit) : M Unit :=
+  match l with
+  | [] => pure ()
+  | x :: rest =>
+    match f x with
+    | .error e => .error e
+    | .ok _ => allM rest f
+
+/-- `reader.sections[ seg->get_section_index_at( j ) ]->get_name()` : the section must exist -/
+def memberCheck (o : Obj) (m : BitVec 16) : M Unit :=
+  match o.secs[m.toNat]? with
+  | none => throw (.nullDeref "dump/segment_headers:sections[member]")
+  | some _ => pure ()
+
+/-- `dump::segment_headers` : the member names of every segment -/
+def dumpSegMembers (o : Obj) : M Unit :=
+  allM (o.segs.take (o.segs.length % 65536)) (fun g => allM g.secs (memberCheck o))
+
 /-- number of bytes `dump::section_data` / `segment_data` print -/
 def maxDataEntries : Nat := 64
 
@@ -295,9 +314,11 @@ def bindM {α β : Type} (x : M α) (f : α → M β) : M β :=
   | .error e => .error e
   | .ok a => f a
 
-/-- The reads of `dump::header, section_headers, segment_headers` (getters only), `symbol_tables`,
-    `notes`, `modinfo`, `dynamic_tags`, `section_datas`, `segment_datas`, in this order. -/
+/-- The reads of `dump::header, section_headers` (getters only), `segment_headers` (getters + the
+    lookup of every member section), `symbol_tables`, `notes`, `modinfo`, `dynamic_tags`,
+    `section_datas`, `segment_datas`, in this order. -/
 def dump (o : Obj) : M Obj :=
+  bindM (dumpSegMembers o) fun _ =>
   bindM (forIdx (List.range o.secs.length) dumpSymSec o) fun o =>
   bindM (forIdx (List.range o.secs.length) dumpNoteSec o) fun o =>
   bindM (forIdx (List.range (half o.segs.length)) dumpNoteSeg o) fun o =>
